@@ -16,23 +16,35 @@
    container (vector/list/set/map/array) holds smart pointers to scalars; for those types it is false
    (c11_unlimited_scalar_ptr_vector_hang_refuted, replayed on the real code) - the same types whose null
    elements vanish (finding null-scalar-ptr-in-container-lost).
-   Proved for all well-formed values of every type built from scalars, enum, string, vector, list, array,
-   unique/shared pointers and AGGREGATES with field numbers (base classes are fields), arbitrarily nested, debug
-   and NDEBUG, fresh target object:  c11_roundtrip_partial, c11_roundtrip_scalar_partial.  "partial" = (1) hash
-   containers (set/map) are outside `no_hash`; (2) container elements must not be smart pointers to scalars
-   (`ty_ok`; refuted otherwise); (3) flat array / string / stream under an enclosing limit (refuted without).
-   Proved for every aggregate schema of that universe (c11_compat, c11_field_order_irrelevant): an input made of
-   any sequence, in any order, of encodings of distinct known fields and of unknown fields of every wire type
-   (varint, fixed64, length-delimited, fixed32) parses to the default object updated at exactly the fields present:
-   unknown fields are skipped, absent fields keep their defaults, field order does not matter.
-   NOT proved (checked on implementation + model by the correspondence run and monitors only): success of a parse
-   of ARBITRARY bytes => stable under re-serialisation; that the wire format of each field equals protobuf's own
-   encoder output (checked against protoc-generated messages); the size cache of re-used objects (monitor).
+   c11_roundtrip / c11_roundtrip_scalar: for all well-formed values of EVERY type of the universe (scalars, enum,
+   string, vector, list, array, unordered_set, unordered_map, unique/shared pointers, aggregates with field numbers
+   and base classes, arbitrarily nested), debug and NDEBUG, fresh target object: parsing the written bytes returns
+   the value (pointers to empty encodings null).  Hash containers are lists in iteration order with pairwise
+   different elements / keys (part of wf); the theorem holds for every such list, i.e. for every iteration order the
+   real container may use, and the entries come back in wire order: c11_roundtrip_set_any_order /
+   c11_roundtrip_map_any_order state it with an explicit Permutation.  Excluded (and refuted): container elements
+   that are smart pointers to scalars (`ty_ok`), streams without an enclosing limit.
+   c11_success_stable / c11_success_stable_scalar: whatever a SUCCESSFUL parse of ARBITRARY bytes returns
+   serializes and parses back to itself (pointers to empty encodings null), for every type without hash containers
+   whose top level is length-delimited or a scalar, provided the re-serialized size is below 2^31 (the library's own
+   limit); c11_decoded_wellformed is the invariant behind it (for ALL types, incl. sets/maps).  Excluded: types
+   containing unordered_set/map (the model compares pointer elements by value, the real containers by address),
+   top-level smart pointers to scalars.
+   Proved for every aggregate schema (c11_compat, c11_field_order_irrelevant): an input made of any sequence, in any
+   order, of encodings of distinct known fields and of unknown fields of every wire type (varint, fixed64,
+   length-delimited, fixed32) parses to the default object updated at exactly the fields present: unknown fields are
+   skipped, absent fields keep their defaults, field order does not matter.
+   NOT proved (checked on implementation + model by the correspondence run and monitors only): that the wire format
+   of each field equals protobuf's own encoder output (checked against protoc-generated messages); the size cache
+   of re-used objects (monitor); independence of the chunking of a stream-backed input (the stream model has no
+   chunks: protobuf's buffering only shows in how much a FAILED varint read consumes, and since e367940 only a failed
+   tag read is survivable - with >= 10 continuation bytes where a tag is expected a flat array fails where a chunked
+   stream may go on; for valid encodings and all other inputs the monitors compare flat / string / chunked).
    The remaining *_refuted theorems are the three findings still open in KNOWN_FINDINGS.txt (null scalar pointers
    in containers, top-level vector on a stream without limit: empty / vector<float>: terminate), each replayed on
    the real classes by checks/c11.py. *)
 From Coq Require Import ZArith List Permutation.
-Require Import Verif.Gen.Gen_serialization Verif.SE.SEModel Verif.SE.SEProofs Verif.SE.SEHang.
+Require Import Verif.Gen.Gen_serialization Verif.SE.SEModel Verif.SE.SEProofs Verif.SE.SEHang Verif.SE.SEStable.
 Import ListNotations.
 Local Open Scope Z_scope.
 
@@ -58,28 +70,58 @@ Proof. exact tag_of_add. Qed.
 Print Assumptions c11_tag_layout.
 
 (* round trip into a fresh object; pointers to empty encodings come back null (norm) *)
-Theorem c11_roundtrip_partial : forall nd t v, ty_ok t -> no_hash t -> wf t v -> is_ld t = true ->
+Theorem c11_roundtrip : forall nd t v, ty_ok t -> wf t v -> is_ld t = true ->
   parse nd false t (encode t v) = Ok (norm t v) (S0 []).
 Proof. exact roundtrip_ld. Qed.
-Print Assumptions c11_roundtrip_partial.
+Print Assumptions c11_roundtrip.
 
 (* scalars (and non-null pointers to them) delimit themselves: whatever follows is left untouched *)
-Theorem c11_roundtrip_scalar_partial : forall nd t v post, ty_ok t -> no_hash t -> wf t v -> is_ld t = false ->
+Theorem c11_roundtrip_scalar : forall nd t v post, ty_ok t -> wf t v -> is_ld t = false ->
   nonnull t v -> parse nd false t (encode t v ++ post) = Ok (norm t v) (S0 post).
 Proof. exact roundtrip_nld. Qed.
-Print Assumptions c11_roundtrip_scalar_partial.
+Print Assumptions c11_roundtrip_scalar.
+
+(* hash containers: whatever order the container iterates in, the entries come back (in that order) *)
+Theorem c11_roundtrip_set_any_order : forall nd e l l', ty_ok (TSet e) -> wf (TSet e) (VSeq l) -> Permutation l l' ->
+  parse nd false (TSet e) (encode (TSet e) (VSeq l')) = Ok (VSeq (map (norm e) l')) (S0 []) /\
+  Permutation (map (norm e) l) (map (norm e) l').
+Proof. exact roundtrip_set_any_order. Qed.
+Print Assumptions c11_roundtrip_set_any_order.
+
+Theorem c11_roundtrip_map_any_order : forall nd k w l l', ty_ok (TMap k w) -> wf (TMap k w) (VSeq l) -> Permutation l l' ->
+  parse nd false (TMap k w) (encode (TMap k w) (VSeq l')) = Ok (norm (TMap k w) (VSeq l')) (S0 []) /\
+  exists nl nl', norm (TMap k w) (VSeq l) = VSeq nl /\ norm (TMap k w) (VSeq l') = VSeq nl' /\ Permutation nl nl'.
+Proof. exact roundtrip_map_any_order. Qed.
+Print Assumptions c11_roundtrip_map_any_order.
+
+(* ---- parsing ARBITRARY bytes: what a success returns is well shaped and stable ---- *)
+Theorem c11_decoded_wellformed : forall nd t cur s v s', wfs t cur -> decode nd t s cur = Ok v s' -> wfs t v.
+Proof. intros nd t cur s v s' Hc H. exact (decode_wfs nd t cur Hc s v s' H). Qed.
+Print Assumptions c11_decoded_wellformed.
+
+Theorem c11_success_stable : forall nd t bs v s', ty_ok t -> no_hash t -> is_ld t = true ->
+  parse nd false t bs = Ok v s' -> ssize t v < 2 ^ 31 ->
+  parse nd false t (encode t v) = Ok (norm t v) (S0 []).
+Proof. exact success_stable. Qed.
+Print Assumptions c11_success_stable.
+
+Theorem c11_success_stable_scalar : forall nd k bs v s' post, parse nd false (TS k) bs = Ok v s' ->
+  parse nd false (TS k) (encode (TS k) v ++ post) = Ok v (S0 post).
+Proof. exact success_stable_scalar. Qed.
+Print Assumptions c11_success_stable_scalar.
+
 
 (* protobuf compatibility of structures declared with field numbers.  A chunk is the encoding of one known field
    (CF i x: field index i with value x, non-empty encoding) or one unknown field (CU num w payload).  Any sequence
    of chunks with distinct known fields parses, into a fresh object, to the defaults updated by those fields. *)
-Theorem c11_compat : forall nd fs cs, ty_ok (TAgg fs) -> no_hash (TAgg fs) ->
+Theorem c11_compat : forall nd fs cs, ty_ok (TAgg fs) ->
   Forall (chunk_ok fs) cs -> NoDup (flat_map chunk_idx cs) ->
   parse nd false (TAgg fs) (concat (map (chunk_bytes fs) cs))
   = Ok (VSeq (fold_left (chunk_apply fs) cs (map (fun p => dflt (snd p)) fs))) (S0 []).
 Proof. exact compat_parse. Qed.
 Print Assumptions c11_compat.
 
-Theorem c11_field_order_irrelevant : forall nd fs cs cs', ty_ok (TAgg fs) -> no_hash (TAgg fs) ->
+Theorem c11_field_order_irrelevant : forall nd fs cs cs', ty_ok (TAgg fs) ->
   Forall (chunk_ok fs) cs -> NoDup (flat_map chunk_idx cs) -> Permutation cs cs' ->
   exists v, parse nd false (TAgg fs) (concat (map (chunk_bytes fs) cs)) = Ok v (S0 []) /\
             parse nd false (TAgg fs) (concat (map (chunk_bytes fs) cs')) = Ok v (S0 []).
@@ -145,8 +187,10 @@ Example c11_overlong_length_prefix_fails : parse false false (TVec TStr) (repeat
 Proof. exact se_overlong_length_fails. Qed.
 
 (* ---- non-vacuity and the aggregate behaviours on a concrete schema ---- *)
-Example c11_hypotheses_satisfiable : wf ex_ty ex_val /\ ty_ok ex_ty /\ no_hash ex_ty /\ is_ld ex_ty = true.
+Example c11_hypotheses_satisfiable : wf ex_ty ex_val /\ ty_ok ex_ty /\ is_ld ex_ty = true.
 Proof. exact wf_example. Qed.
+Example c11_hash_hypotheses_satisfiable : wf ex_hash_ty ex_hash_val /\ ty_ok ex_hash_ty.
+Proof. exact wf_hash_example. Qed.
 Example c11_aggregate_roundtrip : parse false false ex_ty (encode ex_ty ex_val) = Ok (norm ex_ty ex_val) (S0 []).
 Proof. exact ex_roundtrip. Qed.
 Example c11_unknown_skipped_any_order :
